@@ -1064,7 +1064,7 @@ class PeriodCriterion(RangeCriterion):
             start=self.start.get_sql(operand_ctx),
             end=self.end.get_sql(operand_ctx),
         )
-        return format_alias_sql(sql, self.alias, ctx)
+        return format_alias_sql(sql, self.alias, ctx) if ctx.with_alias else sql
 
 
 class BitwiseAndCriterion(Criterion):
